@@ -182,6 +182,11 @@ var Probes = []string{
 	`. as $d | reduce paths as $p (null; setpath($p; $d | getpath($p))), $d`,
 	`tostream | select(length == 2) | .[0] |= map(tostring) | .[1] as $v | .[0] | join(".")`,
 	`env | type`, `$ENV | type`,
+	`.[]? | if (numbers | . % 2 == 0) then error else . end`, `.[]? | try error catch error`, `(1, error, 2)`, `(1, error("x"), 2, error("y"), 3)`, `.[]? | error`,
+	`.[]? | (., error, .)`, `(error("x"), 1)`, `1, error({a: [1]}), 2`, `path(.[]? | error)`, `.[]? as $x | ($x | error), $x`, `foreach (1, error("e"), 2) as $x (0; . + 1), "after"`,
+	`reduce (.[]? | if . == 2 then error else . end) as $x (0; . + 1), "after"`, `.[]? | (label $f | (error, break $f)), .`, `(.[]? | tonumber?), (.[]? | tonumber)`,
+	`try (1, error("x"), 2) catch ., (3, error("y"), 4)`, `def f: ., (if . < 3 then . + 1 | f else error("deep") end); 0 | f, f`, `.[]? | getpath(["a", "b"])?, getpath(["a", 0]), error(null), 1`,
+	`[.[]? | error]?, (.[]? |= error)?, (.[]? |= (., error)), (.[]? | [., error]?), .`,
 	`$v, ($v | .[0]? = "V"), $v, ([$v, .] | add?), $v, ($v | sort?), $v, del($v | .a?), (. + $v)?, $v`,
 	`($v | del(.[0]?, .a?)), $v, ($v | to_entries?), ($v | .. |= .), $v, [$v | .[]?] , ($v | [.[]?] | .[:1] + ["c"]), $v`,
 }
